@@ -191,7 +191,7 @@ func TestC19(t *testing.T) {
 		}
 		repeats := c19Repeats
 		if c.Kind == "hub" {
-			repeats = 6 // (a build takes up to a second)
+			repeats = 5 // (a build takes up to three seconds)
 		}
 		kind, diff, _, out := checkC19(c, repeats)
 		_, cyc := gspec.HasCycle(gspec.FirstOver(g))
